@@ -296,7 +296,18 @@ def r3(ctx):
                    "ban|unguarded", "handle_rpc_response bans a responder without evidence of unsolicited records", loc=b.loc(t.line))
         a = fmt_short(prov.operand(t.args[1]))
         rule.check(a == "node_address", "the banned address is the responder's", "ban|who", "handle_rpc_response bans %s" % a, loc=b.loc(t.line))
-    # `before_len` is taken before the retain and `len` after it
+    # the evidence is looked at before it is thrown away: in the ENR-request branch the "more than one record" test counts the records as
+    # they were received - a retain that drops the foreign records first makes the test blind to them
+    retains = [bi for bi, t in b.calls() if callee_matches(t, r"vec::Vec::<.*>::retain$", r"Vec::retain$")]
+    for sb, tgt in many:
+        early = [rb for rb in retains if sb in b.reachable(rb) and rb in b.live_blocks() and
+                 not any(sh == rb for sh in [])]
+        # only retains that can run on the way to this test in the same branch matter: those from which the test is reachable without
+        # going back through the branch's own entry
+        early = [rb for rb in early if rb not in b.reachable(tgt)]
+        rule.check(not early, "ENR request: the `more than one record` test sees the answer as received (no filter before it)", "ban|evidence-filtered-first",
+                   "in the ENR-request branch the records are filtered before the `more than one record` test: a responder that pads its answer with foreign records is no "
+                   "longer banned", loc=b.loc(b.blocks[sb].term.line))
     return rule
 
 
